@@ -7,6 +7,6 @@ Extraction Language OCaml.
 Set Extraction Optimize.
 Extraction "model_uni.ml"
   N.add N.mul N.sub N.div_eucl N.compare Z.add Z.mul Z.sub Z.div_eucl Z.compare Z.of_N Z.to_N Z.opp
-  UniModel.c20_model_encode UniModel.c20_model_json UniModel.c20_model_raw
+  UniModel.c20_width UniModel.c20_model_encode UniModel.c20_model_json UniModel.c20_model_raw
   UniModel.c20_oracle_encode UniModel.c20_oracle_json UniModel.scalarb UniModel.plainb
   UniModel.std_utf UniModel.json_escape UniModel.all_lower UniModel.all_upper.
